@@ -41,7 +41,7 @@ Wires(seq) == { seq[j].wire : j \in DOMAIN seq }
 WireOK ==
     CASE cur.ctx = "prop" -> \E i \in TItems : items[i].kind = "struct" /\ Wires(items[i].fields) = NamesS
                                                /\ Len(items[i].fields) = Cardinality(NamesS)
-      [] cur.ctx = "enum" -> \E i \in TItems : items[i].kind = "enum" /\ Wires(items[i].variants) = NamesS
+      [] cur.ctx \in {"enum", "var-int", "var-tuple1", "var-tuple2", "var-struct"} -> \E i \in TItems : items[i].kind = "enum" /\ Wires(items[i].variants) = NamesS
                                                /\ Len(items[i].variants) = Cardinality(NamesS)
       [] OTHER -> TRUE
 
@@ -49,8 +49,8 @@ Diag ==
     IF ingest # "ok" THEN "ok"
     ELSE IF rres # "ok" THEN "C08/AcceptedButOutputNotRust"
     ELSE IF DupFields(items) # {} \/ DupVariants(items) # {} \/ DupItems(items) # {} THEN "C08/IdentifiersNotDistinct"
-    ELSE IF cres # "ok" THEN "C08/AcceptedButOutputDoesNotCompile"
     ELSE IF ~WireOK THEN "C08/WireNameNotOriginalName"
+    ELSE IF cres # "ok" THEN "C08/AcceptedButOutputDoesNotCompile"
     ELSE IF rt = "bad" THEN "C08/NameNotPreservedOnWire"
     ELSE "ok"
 
